@@ -17,6 +17,12 @@ CHECKS = {
     "C10": ("exploration", "exhaustive lattice of traced models x Tn x range window x units x 40 temperatures per phase (inside, at and beyond both table ends); relations recomputed from the reported p alone",
             "dp, ddp against exact-rational 5-point stencils of the reported p, e/w/cs^2/de recomputed by the oracle, continuity across the four range boundaries, p == -V(min) inside the range against the closed-form minimum, alpha against its definition, and the no-setExtrapolate history.",
             "trusted: closed-form phases of vmc/models.py; tolerance of p=-V(min) is the configured phaseTracerTol", "DESIGN.md section 3 C10"),
+    "C11": ("model_checking", "exhaustive lattice model x phase x start x requested range x step x tolerance x re-minimisation x units on the real tracer with closed-form minima/spinodals, plus BFS over re-trace histories (row invariants only)",
+            "Every tabulated row: |grad V| within an rTol-derived bound, positive-definite analytic Hessian, stored V, continuity against the implicit-function derivative (detects branch hops), mid-point interpolation against the exact minimum; end of table vs closed-form fold/instability temperatures and end flags; critical temperature vs closed form; histories of traces explored by BFS with table digests.",
+            "trusted: closed-form phases/spinodals of vmc/models.py; continuous bifurcations ('merge' points) are kept 5% away from requested ranges; what a re-trace does with a new request is recorded as an observation, not judged (the property quantifies over inputs/configurations)", "DESIGN.md section 3 C11"),
+    "C20": ("exploration", "complete enumeration of the shipped table rows (thorough) / every 25th row + all rows near the non-analytic points + fourth-difference smoothness on every row (quick); direct integrals on a fixed argument lattice against 35-digit mpmath with break points; BFS over construction histories of the shared default integrals",
+            "Real and imaginary parts, value and derivative of Jb/Jf against the defining integrals; closed forms at 0 and for Im J; table rows, spline slopes and mid-points against the reference with region-dependent derived bands; one-loop thermal potential in the massless/heavy limits and continuity in the masses; Coleman-Weinberg term against its closed form for all imaginary-part options.",
+            "trusted: mpmath quadrature (self-checked against the Bessel series and the closed-form imaginary part on every reference value)", "DESIGN.md section 3 C20"),
     "C12": ("model_checking", "exhaustive lattice (backgrounds x particles x collision operators x 4 basis combinations x grid sizes x derivative mode) plus BFS over all call histories to depth 3/4 on a real BoltzmannSolver with state digests",
             "Homogeneous background => |deltaF| below a derived rounding bound; backward error of the dense solve; basis independence of deltaF and of the four moments via the harness' own basis functions; finite-difference vs spectral source/Liouville on a refinement ladder with Taylor bounds; every operation sequence over {setBackground A/B, solve, getDeltas, caller scribbles on its background} to the stated depth compared bitwise with a fresh solver.",
             "trusted: synthetic non-singular collision operators generated by the harness (the LFS collision files are pointers), own closed-form source/operator assembly", "DESIGN.md section 3 C12"),
